@@ -117,6 +117,9 @@ func runC02(c *core.Ctx) {
 	now := samlgen.T0
 	sp := harness.NewSP(harness.SPOpt{})
 	spIDPInit := harness.NewSP(harness.SPOpt{AllowIDPInit: true})
+	spHooks := harness.NewSP(harness.SPOpt{})
+	spHooks.ValidateAudienceRestriction = func(*saml.Assertion) error { return nil }
+	spHooks.ValidateRequestID = func(saml.Response, []string) error { return nil }
 	tols := c02Tols[:5]
 	if c.Thorough() {
 		tols = c02Tols
@@ -134,6 +137,7 @@ func runC02(c *core.Ctx) {
 		idpInit  bool   // SP configured with AllowIDPInitiated (the windows must hold regardless)
 		noDest   bool   // Response without Destination (allowed when the Response itself is unsigned)
 		method   string // SubjectConfirmation Method of the varied confirmation ("" = bearer): the window holds for every confirmation
+		hooks    bool   // SP with the application hooks installed (ValidateAudienceRestriction, ValidateRequestID: both accept): they replace the audience / request-ID decisions, not the time windows
 	}
 	build := func(s spec, t tol) ([]byte, string) {
 		fm := func(kind int, tm time.Time) string {
@@ -186,6 +190,9 @@ func runC02(c *core.Ctx) {
 		if s.idpInit {
 			thesp = spIDPInit
 		}
+		if s.hooks {
+			thesp = spHooks
+		}
 		a, err := parseXML(thesp, doc, []string{samlgen.ReqID})
 		t.Impl(1)
 		checkAPIContract(t, a, err)
@@ -202,7 +209,7 @@ func runC02(c *core.Ctx) {
 		if v == core.MustAccept && s.method != "" && s.confs == 1 {
 			v = core.DontCare // no obligation to accept an assertion without any bearer confirmation
 		}
-		if !allFar || s.form != nil || s.second || s.confs != 1 || s.idpInit || s.noDest || s.method != "" {
+		if !allFar || s.form != nil || s.second || s.confs != 1 || s.idpInit || s.noDest || s.method != "" || s.hooks {
 			t.NonTrivial()
 		}
 		t.Outcome(harness.ErrClass(err))
@@ -261,17 +268,18 @@ func runC02(c *core.Ctx) {
 				idpInit, noDest bool
 				lay             harness.Layout
 				method          string
-			}{{"idpinit/R", true, false, harness.Layout{SignResponse: true}, ""}, {"idpinit/A", true, false, harness.Layout{SignAssertion: true}, ""},
-				{"nodest/A", false, true, harness.Layout{SignAssertion: true}, ""}, {"idpinit+nodest/A", true, true, harness.Layout{SignAssertion: true}, ""},
-				{"holder-of-key/R", false, false, harness.Layout{SignResponse: true}, "urn:oasis:names:tc:SAML:2.0:cm:holder-of-key"},
-				{"sender-vouches/A", false, false, harness.Layout{SignAssertion: true}, "urn:oasis:names:tc:SAML:2.0:cm:sender-vouches"}} {
+				hooks           bool
+			}{{"hooks/R", false, false, harness.Layout{SignResponse: true}, "", true}, {"hooks/A", false, false, harness.Layout{SignAssertion: true}, "", true}, {"idpinit/R", true, false, harness.Layout{SignResponse: true}, "", false}, {"idpinit/A", true, false, harness.Layout{SignAssertion: true}, "", false},
+				{"nodest/A", false, true, harness.Layout{SignAssertion: true}, "", false}, {"idpinit+nodest/A", true, true, harness.Layout{SignAssertion: true}, "", false},
+				{"holder-of-key/R", false, false, harness.Layout{SignResponse: true}, "urn:oasis:names:tc:SAML:2.0:cm:holder-of-key", false},
+				{"sender-vouches/A", false, false, harness.Layout{SignAssertion: true}, "urn:oasis:names:tc:SAML:2.0:cm:sender-vouches", false}} {
 				for _, confs := range []int{1, 2, 3} {
 					if opt.method == "" && confs == 2 {
 						continue
 					}
 					key := fmt.Sprintf("opt=%s/tol=%s/resp=%s/ass=%s/nb=%s/nooa=%s/scd=%s/confs=%d", opt.name, tl.name,
 						posNames[pos[0]], posNames[pos[1]], posNames[pos[2]], posNames[pos[3]], posNames[pos[4]], confs)
-					s := spec{pos: pos, confs: confs, lay: opt.lay, idpInit: opt.idpInit, noDest: opt.noDest, method: opt.method}
+					s := spec{pos: pos, confs: confs, lay: opt.lay, idpInit: opt.idpInit, noDest: opt.noDest, method: opt.method, hooks: opt.hooks}
 					tl := tl
 					c.Case(key, func(t *core.T) { runOne(t, s, tl, key) })
 				}
